@@ -93,6 +93,12 @@ func Fetch(
 			return err
 		}
 
+		// Nothing has been stored for an empty file: there is no stream to decode and no content signature to check, the
+		// (verified) header is all there is
+		if hdr.FileInfo().Mode().IsRegular() && hdr.Size == 0 {
+			return dstFile.Close()
+		}
+
 		// Don't decompress non-regular files
 		if !hdr.FileInfo().Mode().IsRegular() {
 			if _, err := io.Copy(dstFile, tr); err != nil {
